@@ -34,12 +34,13 @@ def buildDeclarations (spec : DeclSpec) (decls : List DeclInfo) (typedefNamespac
     if d0.decl.isNone then
       let bad : P Bool := do
         if spec.type.length < 2 then pure true else
+        if !(spec.type.getLast!).isCls .IdentifierType then pure true else
         let names ← lastTypeNames spec
         if names.length != 1 then pure true else
         pure (!(← isTypeInScope (strOf names.head!)))
       if ← bad then
         match spec.type with
-        | [] => parseError "Invalid declaration" (.text "?")
+        | [] => parseError "Invalid declaration" (← lexFileLoc)
         | t :: _ =>
           match t.coord? with
           | some co => parseError "Invalid declaration" (locOfCoord co)
